@@ -8,7 +8,7 @@ d=$(mktemp -d /tmp/verifmut.XXXXXX)
 trap 'rm -rf "$d"' EXIT
 rsync -a --exclude .git /repo/ "$d/"
 (cd "$d" && patch -p1 -s < "$patch")
-(cd "$d" && GOFLAGS=-mod=mod GOPROXY=off GOSUMDB=off GOTOOLCHAIN=local go build ./... ) || { echo "MUTANT DOES NOT COMPILE"; exit 3; }
+(cd "$d" && GOFLAGS=-mod=mod GOPROXY=off GOSUMDB=off GOTOOLCHAIN=local go build -trimpath ./... ) || { echo "MUTANT DOES NOT COMPILE"; exit 3; }
 vd=$(mktemp -d /tmp/verifmutv.XXXXXX)
 cp /verif/known_findings.jsonl "$vd/" 2>/dev/null || true
 mkdir -p "$vd/sa" && ln -s /verif/sa/testdata "$vd/sa/testdata"
